@@ -52,7 +52,6 @@ func runDaemon(in *bufio.Scanner, w *bufio.Writer) {
 		}
 		cmd := exec.Command(os.Args[0], "run")
 		cmd.Env = append(os.Environ(), "VERIF_DAEMON_CHILD=1")
-		cmd.SysProcAttr = &syscall.SysProcAttr{Pdeathsig: syscall.SIGKILL} // no orphans when the run is killed on a time-out
 		cmd.Stdin = strings.NewReader(strings.Join(cur, "\n") + "\n")
 		var out bytes.Buffer
 		cmd.Stdout = &out
@@ -181,8 +180,23 @@ func vdList(dir string, only map[string]bool) string {
 	return strings.Join(names, " ")
 }
 
+var vdBusProc *exec.Cmd
+
 func runDaemonCase(in *bufio.Scanner, w *bufio.Writer) {
 	defer w.Flush()
+	// no orphans when the run is killed on a time-out: the harness that started this process is gone when the parent
+	// process id changes; take the private bus daemon along
+	go func(parent int) {
+		for {
+			time.Sleep(500 * time.Millisecond)
+			if os.Getppid() != parent {
+				if vdBusProc != nil && vdBusProc.Process != nil {
+					vdBusProc.Process.Kill()
+				}
+				os.Exit(3)
+			}
+		}
+	}(os.Getppid())
 	log.SetOutput(vDaemonTap{})
 	tmp, err := os.MkdirTemp("", "vd")
 	if err != nil {
@@ -295,7 +309,7 @@ func runDaemonCase(in *bufio.Scanner, w *bufio.Writer) {
 </busconfig>`
 			os.WriteFile(filepath.Join(tmp, "bus.conf"), []byte(conf), 0644)
 			busProc = exec.Command(bd, "--config-file="+filepath.Join(tmp, "bus.conf"), "--nofork")
-			busProc.SysProcAttr = &syscall.SysProcAttr{Pdeathsig: syscall.SIGKILL}
+			vdBusProc = busProc
 			if err := busProc.Start(); err != nil {
 				busProc = nil
 				fmt.Fprintln(w, "< harness-error dbus-daemon", err)
